@@ -228,7 +228,7 @@ func runC03(c *Ctx) {
 	}
 	if f := c.Fn("C03-R1", "server", "verifyBlob"); f != nil {
 		g := c.G(f)
-		dp := paramObj(f, "digest")
+		dp := paramAt(f, 0)
 		ok := false
 		for _, cb := range g.CondBlocks() {
 			be, isB := ast.Unparen(cb.Cond).(*ast.BinaryExpr)
@@ -402,7 +402,7 @@ func runC03(c *Ctx) {
 			}
 			adds := lg.Find(func(n ast.Node) bool {
 				call, ok := n.(*ast.CallExpr)
-				return ok && core.CalleeName(info, call) == "sync/atomic.Int64.Add" && mentionsSel(call.Fun, "Completed") && core.PathOf(info, call.Fun.(*ast.SelectorExpr).X).Root == paramObj(f, "part")
+				return ok && core.CalleeName(info, call) == "sync/atomic.Int64.Add" && mentionsSel(call.Fun, "Completed") && core.PathOf(info, call.Fun.(*ast.SelectorExpr).X).Root == paramAt(f, 3)
 			})
 			c.Expect("C03-R4", "part.Completed.Add sites", len(adds), 1)
 			for _, a := range adds {
